@@ -223,7 +223,7 @@ def check_config(ci):
             sports = [1, 65535]
             protos = [e['proto']] if e['proto'] else [6, 17]
             for src, dst, sp, dp, pr in itertools.product(corners_src, corners_dst, sports[:1 if ck.quick else 2], dports, protos):
-                pres = ['none', 'established', 'established+half-open']
+                pres = ['none', 'established', 'established+half-open', 'given-up']
                 if any(x is not c and x['peer'] == c['peer'] for x in expect):
                     pres.append('sibling-established')      # an IKE_SA exists for ANOTHER connection with this peer address
                 for pre in pres:
@@ -316,6 +316,25 @@ def acquire_case(confs, addrs, expect, ci, ei, pol_index, src, dst, sport, dport
         half_open = True
     else:
         half_open = False
+    if pre == 'given-up':
+        # an IKE_SA with that peer existed and has been given up in the pass just before the one that reads the ACQUIRE
+        # (the peer was unreachable): no IKE_SA exists any more, so a new one is negotiated
+        w.step(('acquire', 'A', ci, 0))
+        w.deliver_all()
+        old = [bytes(s.my_spi) for s in a.controller.ike_sas if s.state == State.ESTABLISHED and s.peer_addr == c['peer']]
+        if not old:
+            return [('precondition', 'could not establish the first IKE_SA with the peer')]
+        w.step(('acquire', 'A', ci, 0, 11, 0))
+        for _ in range(12):
+            w.net[:] = []
+            if not [s for s in a.controller.ike_sas if bytes(s.my_spi) in old and s.state != State.DELETED]:
+                break
+            dl = P.next_retransmit_deadline(w)
+            w.step(('tick', max(0.0, dl - w.clock) + 0.01 if dl is not None else 1.0))
+        else:
+            return [('precondition', 'the unanswered IKE_SA was not given up')]
+        w.net[:] = []
+        pre = 'none'
     if pre == 'established':
         # an IKE_SA with that peer exists already (created through the first entry of the connection)
         conns = [i for i, x in enumerate(expect) if x is c]
